@@ -45,10 +45,38 @@ def make_plan(seed: int, tier: str, opts: dict) -> dict:
             ds.append(r.choice([dmin, dmax]))
         else:
             ds.append(round(dmin + r.random() * (dmax - dmin), 6))
+    dyadic = r.random() < opts.get("dyadic_p", 0.35)
+    if dyadic:
+        # Tie-rich family with exact binary arithmetic: rates are powers of two, every delay a multiple of 1/64 s, the trainable range a
+        # power-of-two multiple of 1/64 s (so alpha is dyadic too). Arrivals then coincide *bit-exactly* with step starts in both systems
+        # and the near-tie guard is not needed (it is replaced by an exactness test on the recorded history).
+        q = 1.0 / 64.0
+        b = r.choice([4.0, 8.0])
+        for nd in spec["nodes"]:
+            nd["rate"] = b * r.choice([1, 2])
+            per_q = int(round(1.0 / nd["rate"] / q))
+            nd["dist"] = ["det", q * r.choice([0, 1, 2, max(1, per_q // 2)])]
+            nd["delay"] = nd["dist"][1]
+            nd["sched"] = r.choice(["F", "P"])
+        for cc in spec["conns"]:
+            cc["dist"] = ["det", q * r.choice([0, 0, 1, 2])]
+            cc["delay"] = cc["dist"][1]
+        m = r.choice([2, 4, 8])
+        dmin = q * r.choice([0, 1, 2])
+        dmax = dmin + q * m
+        c["delay"] = min(dmin + q * (m // 2), 1.0 / max(spec["nodes"][c["src"]]["rate"], spec["nodes"][c["dst"]]["rate"]))
+        ds = [dmin + q * r.randint(0, m) for _ in range(8)] + [dmin - q, dmax + 2 * q, dmin, dmax]
+        r.shuffle(ds)
+        sp_mod = __import__("simrex.spec", fromlist=["x"])
+        sp_mod._repair(spec)
+        chk = copy.deepcopy(spec)
+        chk["conns"][ci]["dist"] = ["train", dmin, dmax, dmin]
+        if sp_mod.in_S(chk) is not None:
+            return make_plan(seed + 7919, tier, opts)  # the dyadic transform left the supported class: draw again
     ep = driver.gen_episode(r, 0, api="gym", open_loop=spec["open_loop"], nsteps=r.randint(6, opts.get("max_steps", 10)), endings=("stop",), override_p=0.0, faults=False)
     ep["until_active"] = True
     ep2 = dict(ep, strategy=driver.draw_strategy(r), sseed=r.randrange(2**31))
-    return dict(spec=spec, seed=seed, conn=ci, dmin=dmin, dmax=dmax, candidates=ds, episodes=[ep], episodes_S=[ep2], clock="sim", line_rate=0.0, hash_recv=False,
+    return dict(spec=spec, seed=seed, dyadic=dyadic, conn=ci, dmin=dmin, dmax=dmax, candidates=ds, episodes=[ep], episodes_S=[ep2], clock="sim", line_rate=0.0, hash_recv=False,
                 mode=r.choice(compiled.MODES), prune=r.random() < 0.5, how=r.choice(["alpha", "init_delays"]), api=r.choice(["rollout_carry", "run_jit", "gym_jit"]))
 
 
@@ -93,7 +121,7 @@ def run_plan(plan: dict, replay=None) -> dict:
     for cand in plan["candidates"]:
         dc = float(onp.float32(min(max(cand, dmin), dmax)))
         gap = onp.min(onp.abs((sent[:, None] + dc) - starts[None, :])) if len(sent) and len(starts) else 1.0
-        if gap > GUARD:
+        if gap > GUARD or plan.get("dyadic"):
             d, d_clipped = cand, min(max(cand, dmin), dmax)
             break
         redraws += 1
@@ -118,6 +146,15 @@ def run_plan(plan: dict, replay=None) -> dict:
         if not onp.array_equal(a[:m], b[:m]):
             res.update(status="harness_error", detail=f"vertex timings of S and T differ for {n} although the connection is non-blocking: {a[:m].tolist()} vs {b[:m].tolist()}")
             return res
+    exact_ties = 0
+    if plan.get("dyadic"):
+        mS = recS.nodes[v].inputs[u].messages
+        sS, rS = onp.asarray(mS.ts_sent, dtype=float), onp.asarray(mS.ts_recv, dtype=float)
+        if len(sS) and not onp.array_equal(rS, sS + float(onp.float32(d_clipped))):
+            res.update(common.summarise(roS, planS))
+            res.update(status="skipped", detail="dyadic family: recorded arrivals are not bit-exact sums (rounding involved)")
+            return res
+        exact_ties = int(onp.sum(onp.isin(rS, onp.asarray(recS.nodes[v].steps.ts_start, dtype=float))))
     viol = []
     # ---- compile both and run
     outs = {}
@@ -196,7 +233,7 @@ def run_plan(plan: dict, replay=None) -> dict:
             x["needed_extension"] = worst
             x["extension"] = ext
     jax.clear_caches()
-    res.update(common.summarise(roS, planS, extra_sums=dict(steps_compared=compared, near_tie_redraws=redraws, saturated=1 if d != d_clipped else 0, extension_insufficient_runs=1 if ext_short else 0)))
+    res.update(common.summarise(roS, planS, extra_sums=dict(steps_compared=compared, near_tie_redraws=redraws, saturated=1 if d != d_clipped else 0, extension_insufficient_runs=1 if ext_short else 0, dyadic_runs=1 if plan.get("dyadic") else 0, exact_arrival_equals_step_start=exact_ties)))
     res["dicts"]["delay_set_through"] = {plan["how"]: 1}
     res["dicts"]["compile_modes"] = {f"{plan['mode']}/{'prune' if plan['prune'] else 'noprune'}/{plan['api']}": 1}
     if viol:
